@@ -1,0 +1,9 @@
+//go:build verif
+
+package climit
+
+// VerifFree returns the number of tokens currently available (verification builds only).
+func (cl *ConcurrencyLimit) VerifFree() int { return len(cl.ch) }
+
+// VerifLimit returns the configured limit.
+func (cl *ConcurrencyLimit) VerifLimit() int { return cap(cl.ch) }
